@@ -160,6 +160,8 @@ def jobs(tier):
     for k in ks[1:]:
         for via in ('init', 'add'):
             js.append(dict(name=f'H1a:construct_interleaved:{via}:k{k}', fn='h_construct_interleaved', params=dict(k=k, via=via)))
+    for nb in (2, 3):
+        js.append(dict(name=f'H1a:mux_of_{nb}_bands_any_order', module='harness.c07', fn='h_mux_many', params=dict(nbands=nb), cost=20))
     js += elems.jobs_c01(tier)
     return js
 
